@@ -415,3 +415,53 @@ func (s *session) typeText(rt reflect.Type) string {
 	}
 	return rt.String()
 }
+
+// scribble overwrites everything reachable from a value the generated code handed out: what a
+// pointer points at, the elements of a slice, the entries of a map, nested struct fields. A caller
+// owns what a deserializer, a Default_ constructor or an accessor returns and may do this; when
+// the generated code keeps sharing any of it (one default literal for every decoded value, say),
+// every later answer in the same process changes.
+func scribble(v reflect.Value, depth int) {
+	if depth > 64 || !v.IsValid() {
+		return
+	}
+	switch v.Kind() {
+	case reflect.Ptr:
+		if !v.IsNil() {
+			scribble(v.Elem(), depth+1)
+		}
+	case reflect.Struct:
+		for i := 0; i < v.NumField(); i++ {
+			scribble(v.Field(i), depth+1)
+		}
+	case reflect.Slice:
+		for i := 0; i < v.Len(); i++ {
+			scribble(v.Index(i), depth+1)
+		}
+	case reflect.Map:
+		for _, k := range v.MapKeys() {
+			scribble(v.MapIndex(k), depth+1) // reaches pointers and slices held as map values
+			v.SetMapIndex(k, reflect.Value{})
+		}
+	case reflect.Bool:
+		if v.CanSet() {
+			v.SetBool(!v.Bool())
+		}
+	case reflect.Int, reflect.Int8, reflect.Int16, reflect.Int32, reflect.Int64:
+		if v.CanSet() {
+			v.SetInt(^v.Int())
+		}
+	case reflect.Uint8:
+		if v.CanSet() {
+			v.SetUint(^v.Uint() & 0xff)
+		}
+	case reflect.Float64:
+		if v.CanSet() {
+			v.SetFloat(v.Float() + 1)
+		}
+	case reflect.String:
+		if v.CanSet() {
+			v.SetString(v.String() + "!")
+		}
+	}
+}
